@@ -101,7 +101,12 @@ impl<'a> ValGen<'a> {
                 cands.push(ub + 2);
                 cands.push(ub + 130);
             }
-            cands.retain(|n| *n <= cap.max(ub.saturating_add(2)).min(300_000) && (*n < lb || *n > ub));
+            // outside the root the general length form applies: fragment boundaries matter there as well
+            let big = self.large && leaf_items;
+            if big {
+                cands.extend(LARGE_SIZES.iter().copied());
+            }
+            cands.retain(|n| (*n <= cap.max(ub.saturating_add(2)).min(300_000) || (big && *n <= 200_000)) && (*n < lb || *n > ub));
             if !cands.is_empty() {
                 return *self.rng.pick(&cands) as usize;
             }
